@@ -29,6 +29,14 @@ CLAIMED = {
    text="Protobuf-level hostile WriteRequests from a fixed feature table are sent to an RF=1 leader; a request either is refused before it reaches the log (InvalidArgument and the WAL did not grow) or must yield a per-operation status; afterwards the node must restart and lead again without its term regressing, a fresh replica must be able to apply the whole log, and the notification stream must be readable. After an apply error the node is examined, replaced, and the sequence continues, so one finding does not mask the following features.",
    note="Goes through LeaderController.WriteBlock, the entry point the public RPC server calls for every client write.",
    technique="hostile-input fault injection + total-function oracle (no error / no panic / restartable / replayable)"),
+ "C15": dict(engine="kvmodel", level="exploration",
+   text="Seeded write sequences with records declaring entries in index names that are adjacent in key order; after every request the raw index entries equal the model's derived view and a battery of list / range-scan / comparison gets per index (probes at, between, below the first and above the last entry, and on an index that does not exist) equals a sorted reference restricted to that index.",
+   note="Secondary keys without '/' (where the order inside an index is unambiguous); for comparison gets the reference fixes the secondary key and accepts any primary carrying it (ties are not specified by the property).",
+   technique="reference-model monitor + derived-view invariant on the raw DB"),
+ "C16": dict(engine="kvmodel", level="exploration",
+   text="Sequential puts on prefixes with 1..3 levels are compared with exact math/big arithmetic and checked for freshness against the state before each put; subscribers are opened at seeded moments and held by hooks in the windows of GetSequenceUpdates while puts complete, and at quiescence (all writes returned) the last value of each subscriber must be the latest generated key. Subscriber part runs under the race detector.",
+   note="'Eventually observes' is restated as 'at quiescence'; the hold is placed on the subscriber side only (writer-side window between notification and commit is not widened).",
+   technique="reference-model monitor (exact arithmetic) + hook-widened interleavings with a quiescence oracle + race detector"),
 }
 
 NOT_APPLICABLE = {}
